@@ -22,7 +22,7 @@ func init() {
 	vlib.Register(&vlib.Prop{
 		ID:    "C16",
 		Level: "exploration",
-		Cases: func(tier string) int { return vlib.TierN(tier, 448, 21000) },
+		Cases: func(tier string) int { return vlib.TierN(tier, 448, 168000) },
 		Rule: "case idx runs class idx%7 of {message/equals, message/copy, cqrs/json, cqrs/proto, cqrs/gogo, forwarder, reply} on a batch of generated inputs " +
 			"(counter `inputs`; 7 hand-written small pairs + 48 messages x 14 pair mutations for equals, 64 messages for copy, 64 values per marshaler case, 24 messages through one real Forwarder, 64 replies). " +
 			"Strings (UUID, metadata keys/values, topics, struct fields, error texts) come from a valid-UTF-8 generator (empty, control, quotes, multi-byte, astral, up to 600 runes); " +
